@@ -112,8 +112,13 @@ func randSp() ext {
 
 // an ID related to e: ancestor, descendant, sibling, neighbour, or the same
 func relative(e ext) ext {
-	switch rng.Intn(9) {
+	switch rng.Intn(10) {
 	case 0:
+		return e
+	case 9: // re-split twin: a digit moved across one '/' (4/1/12/… ↔ 4/11/2/…): the same digit string, other numbers
+		if r, ok := resplit(e); ok {
+			return r
+		}
 		return e
 	case 8: // the same voxel mirrored across the grid: the TOP bit of x or y flipped (same low bits, other quadrant)
 		r := e
@@ -204,6 +209,44 @@ func relative(e ext) ext {
 	}
 }
 
+// resplit moves one decimal digit from the end of a field to the front of the next one or back, keeping the ID valid and
+// canonical (no leading zero): the concatenated digits of the two fields are unchanged, the numbers are not.
+func resplit(e ext) (ext, bool) {
+	f := []int64{e.h, e.x, e.y, e.v, e.f}
+	for try := 0; try < 12; try++ {
+		i := rng.Intn(4)
+		a, b := strconv.FormatInt(f[i], 10), strconv.FormatInt(f[i+1], 10)
+		if a[0] == '-' || b[0] == '-' {
+			continue
+		}
+		var na, nb string
+		if rng.Intn(2) == 0 { // last digit of a → front of b
+			if len(a) < 2 || a[len(a)-1] == '0' {
+				continue
+			}
+			na, nb = a[:len(a)-1], a[len(a)-1:]+b
+		} else { // first digit of b → end of a
+			if len(b) < 2 || b[1] == '0' || a == "0" {
+				continue
+			}
+			na, nb = a+b[:1], b[1:]
+		}
+		va, err1 := strconv.ParseInt(na, 10, 64)
+		vb, err2 := strconv.ParseInt(nb, 10, 64)
+		if err1 != nil || err2 != nil {
+			continue
+		}
+		g := append([]int64{}, f...)
+		g[i], g[i+1] = va, vb
+		r := ext{g[0], g[1], g[2], g[3], g[4]}
+		if r.h < 0 || r.h > 35 || r.v < 0 || r.v > 35 || r != clampExt(r) {
+			continue
+		}
+		return r, true
+	}
+	return e, false
+}
+
 func clampExt(e ext) ext {
 	n := pow2(e.h)
 	m := pow2(e.v)
@@ -255,7 +298,7 @@ func spids(l []ext) []string {
 }
 
 // malformed ID strings: wrong arity, empty fields, spaces, signs, non-digits, overflow.
-var junkFields = []string{"", " ", "a", "1a", "+", "-", "--1", "1.0", "1e3", "0x1", " 1", "1 ", "９",
+var junkFields = []string{"", " ", "a", "1a", "+", "-", "--1", "++3", "+-2", "-+2", "+ 1", "1+", "1-", "1.0", "1e3", "0x1", " 1", "1 ", "９",
 	"9223372036854775808", "-9223372036854775809", "99999999999999999999", "1_000", "١"}
 
 // a non-canonical spelling of the same integer (accepted by strconv.ParseInt): the value, and therefore
